@@ -79,3 +79,25 @@ extern "C" void h_mem_w32()
   OBL(m.low_address == a && m.high_address == a + 3, "C05.mem: low/high after write32");
   CANARY("h_mem_w32 end");
 }
+
+/* MemoryPage::set_data / set_debug (core/MemoryPage.h): the page remembers the lowest and highest offset
+   that was ever written (offset_min/offset_max), whatever the order of the writes; naken_util's whole-image
+   disassembly and the page-range queries rely on it (C19).  Two writes into one page, all offsets symbolic. */
+extern "C" void h_page_minmax()
+{
+  /* an empty page as its constructor leaves it, without running the two memsets over 320 KiB */
+  MemoryPage *pp = (MemoryPage *)malloc(sizeof(MemoryPage)); ASSUME(pp != 0);
+  MemoryPage &page = *pp;
+  unsigned base = nondet_uint() & 0xffff0000u;
+  page.address = base; page.offset_min = PAGE_SIZE; page.offset_max = 0; page.next = 0;
+  unsigned o1 = nondet_uint(), o2 = nondet_uint();
+  ASSUME(o1 < PAGE_SIZE && o2 < PAGE_SIZE);
+  unsigned char d1 = nondet_uchar(), d2 = nondet_uchar();
+  int use_debug = nondet_int() & 1;
+  page.set_data(base + o1, d1);
+  OBL(page.offset_min == o1 && page.offset_max == o1, "C19.page: after the first write the used range of the page is exactly that offset");
+  if (use_debug) page.set_debug(base + o2, 7); else page.set_data(base + o2, d2);
+  OBL(page.offset_min == (o1 < o2 ? o1 : o2) && page.offset_max == (o1 > o2 ? o1 : o2), "C19.page: the used range of a page is [lowest, highest] written offset in any write order");
+  if (!use_debug) OBL(page.bin[o2] == d2 && (o1 == o2 || page.bin[o1] == d1), "C19.page: bytes are stored at their offsets");
+  CANARY("h_page_minmax end");
+}
